@@ -170,7 +170,7 @@ loop:
 				st.Unchanged = append(st.Unchanged, [2]int{off(iv.Start), off(iv.End)})
 			}
 			st.CommentsBefore = verifComments(tf, fout.Comments)
-			cleanupFilePos(fset.File(fout.Pos()), cl, fout.Comments)
+			fout.Comments = cleanupFilePos(fset.File(fout.Pos()), cl, fout.Comments)
 			st.CommentsAfter = verifComments(tf, fout.Comments)
 			tr.Steps = append(tr.Steps, st)
 		}
